@@ -7,6 +7,7 @@ package main
 import (
 	"context"
 	"fmt"
+	"math/big"
 	"sort"
 	"strings"
 
@@ -52,10 +53,66 @@ var watched = common.HexToAddress("0x000000000000000000000000000000000000beef")
 
 func topicFor(k int) common.Hash { return common.BytesToHash([]byte{0xaa, byte(k + 1)}) }
 
+// Trigger k has one of four definition kinds (k%4): 0 = topic 0 equals a topic of its own; 1 =
+// topic 0 equals a topic shared by all kind-1 triggers and topic 1 equals an address of its own;
+// 2 = topic 0 of its own and topic 1 as a number >= 1000 (topic predicates only, one numeric);
+// 3 = topic 0 of its own and data word 0 > 50.
+var sharedTopic = common.BytesToHash([]byte{0xbb, 0xbb})
+
+func addrTopic(k int) common.Hash { return common.BytesToHash([]byte{0xcc, byte(k + 1)}) }
+
+func numWord(v uint64) common.Hash { return common.BigToHash(new(big.Int).SetUint64(v)) }
+
 func definition(k int) []byte {
 	t := topicFor(k)
-	d := ss.EventTriggerDefinition{Contract: watched, LogPredicates: []ss.LogPredicate{{LogValueRef: ss.LogValueRef{Offset: 0}, ValuePredicate: ss.ValuePredicate{Op: ss.BytesEq, ByteArgs: [][]byte{t[:]}}}}}
+	eq := func(off uint64, b []byte) ss.LogPredicate {
+		return ss.LogPredicate{LogValueRef: ss.LogValueRef{Offset: off}, ValuePredicate: ss.ValuePredicate{Op: ss.BytesEq, ByteArgs: [][]byte{b}}}
+	}
+	var preds []ss.LogPredicate
+	switch k % 4 {
+	case 0:
+		preds = []ss.LogPredicate{eq(0, t[:])}
+	case 1:
+		a := addrTopic(k)
+		preds = []ss.LogPredicate{eq(0, sharedTopic[:]), eq(1, a[:])}
+	case 2:
+		preds = []ss.LogPredicate{eq(0, t[:]), {LogValueRef: ss.LogValueRef{Offset: 1}, ValuePredicate: ss.ValuePredicate{Op: ss.UintGte, IntArgs: []*big.Int{big.NewInt(1000)}}}}
+	default:
+		preds = []ss.LogPredicate{eq(0, t[:]), {LogValueRef: ss.LogValueRef{Offset: 4}, ValuePredicate: ss.ValuePredicate{Op: ss.UintGt, IntArgs: []*big.Int{big.NewInt(50)}}}}
+	}
+	d := ss.EventTriggerDefinition{Contract: watched, LogPredicates: preds}
+	if err := d.Validate(); err != nil {
+		panic(err)
+	}
 	return d.MarshalBytes()
+}
+
+// logFor builds a log that matches trigger k, or (near) one that passes the node-side topic filter
+// of trigger k but does not match its definition.
+func logFor(k int, b int, near bool) ethfake.LogSpec {
+	t := topicFor(k)
+	switch k % 4 {
+	case 1:
+		a := addrTopic(k)
+		if near {
+			a = addrTopic(k + 100)
+		}
+		return ethfake.LogSpec{Address: watched, Topics: []common.Hash{sharedTopic, a}, Data: []byte{byte(b)}}
+	case 2:
+		v := uint64(1000 + b)
+		if near {
+			v = 999
+		}
+		return ethfake.LogSpec{Address: watched, Topics: []common.Hash{t, numWord(v)}, Data: []byte{byte(b)}}
+	case 3:
+		v := uint64(51 + b)
+		if near {
+			v = 50
+		}
+		w := numWord(v)
+		return ethfake.LogSpec{Address: watched, Topics: []common.Hash{t}, Data: w[:]}
+	}
+	return ethfake.LogSpec{Address: watched, Topics: []common.Hash{t}, Data: []byte{byte(b)}}
 }
 
 type trig struct {
@@ -71,6 +128,7 @@ type trig struct {
 type plannedLog struct {
 	k     int  // topic of trigger k
 	first bool // placed before the other logs of the block (lower log index)
+	near  bool // passes trigger k's topic filter without matching its definition
 }
 
 type blockPlan struct {
@@ -127,6 +185,13 @@ func runCase(env *vlib.Env, idx int, rep *vlib.Reporter) {
 				plans[b].logs = append(plans[b].logs, plannedLog{k: k, first: r.Bool()})
 			}
 		}
+		if k%4 != 0 && r.Chance(1, 2) {
+			// a near miss inside the window: right event, wrong second predicate
+			if b := int64(t.regBlock) + 1 + int64(r.Intn(3)); b <= int64(t.expiry) && b <= int64(length) {
+				plans[b].logs = append(plans[b].logs, plannedLog{k: k, first: r.Bool(), near: true})
+				rep.Obs("near_miss_logs_in_window", 1)
+			}
+		}
 		trigs = append(trigs, t)
 		shape += fmt.Sprintf("T%d[r%d e%d l%v]", k, t.regBlock, t.expiry, offs)
 	}
@@ -143,7 +208,7 @@ func runCase(env *vlib.Env, idx int, rep *vlib.Reporter) {
 				regs = append(regs, ethfake.EventTriggerRegisteredLog(registryAddr, t.eon, t.prefix, t.sender, definition(k), t.expiry))
 			}
 			for _, l := range plans[b].logs {
-				spec := ethfake.LogSpec{Address: watched, Topics: []common.Hash{topicFor(l.k)}, Data: []byte{byte(b)}}
+				spec := logFor(l.k, b, l.near)
 				if l.first {
 					pre = append(pre, spec)
 				} else {
@@ -153,7 +218,7 @@ func runCase(env *vlib.Env, idx int, rep *vlib.Reporter) {
 			if altLogs {
 				// on the abandoned fork every trigger "matches" right away
 				for k := range trigs {
-					post = append(post, ethfake.LogSpec{Address: watched, Topics: []common.Hash{topicFor(k)}, Data: []byte{0xff}})
+					post = append(post, logFor(k, b, false))
 				}
 			}
 			// noise: a non-matching log of the watched contract
@@ -176,7 +241,7 @@ func runCase(env *vlib.Env, idx int, rep *vlib.Reporter) {
 		fires := false
 		for b := t.regBlock + 1; b <= t.expiry && b <= uint64(length); b++ {
 			for _, l := range plans[b].logs {
-				if l.k == t.k {
+				if l.k == t.k && !l.near {
 					fires = true
 				}
 			}
@@ -383,7 +448,7 @@ func runCase(env *vlib.Env, idx int, rep *vlib.Reporter) {
 			if okLog {
 				okLog = false
 				for _, l := range plans[bn].logs {
-					if l.k == t.k {
+					if l.k == t.k && !l.near {
 						okLog = true
 					}
 				}
